@@ -7,7 +7,17 @@ PROP = {'modules': ['AmVerif.Props.C13'],
  'assumptions': ['Drop of the tracked values is the only observer of destruction (leaks inside std are invisible)', 'RwLock gives mutual exclusion'],
  'trusted': COMMON_TRUSTED + MODEL_TRUSTED + ['partial: use-after-free that does not crash and memory-level effects of the lifetime-extending casts are outside the model; observed only through the drop ledger and the value self-checks']}
 
-META = {'text': 'Proved: type erasure (a view at type R of an entry stored at type S succeeds iff S = R, from the extracted facts: stored TypeId is that of the value, is::<T> compares it, both reinterpreting casts are under `if self.is::<T>()`, exactly two such cast sites, write asserts equal types) and the skeleton of UntypedEntry::write (swap inside the write-lock scope). The exactly-once ledger theorem over all histories is in progress (the statement is currently decided by the independent ledger oracle on every operation of every explored history, including reloads, races and cache drop).',
- 'design_ref': 'DESIGN.md §6 C13',
- 'note': 'Partial: the ownership ledger theorem over the World model is not yet proved; memory-level behaviour (use-after-free that does not crash, allocator) is outside any model. Tie: regenerated cast-site facts + own engine (ledger after every op; sizes/alignments under reload; type matrix) + racing creators.',
- 'technique': 'Lean 4 proof over extracted cast-site facts + ledger oracle on differential histories (ledger theorem in progress)'}
+META = {'text': 'Proved for ALL histories (API operations, notifications, hot_reload, enhance, arbitrary environments between steps) and ALL loader programs '
+         '(nested loads, load_owned, failures, panics, helper threads, no_record): the ownership ledger of the model (ghost state made / held / gone, '
+         'updated exactly where the code creates, stores, swaps, drops or hands out a value) stays well-formed (LedgerOK: one entry per key, distinct entry '
+         'addresses, holders = live entries, no value in two places or gone twice, only created values, none lost); hence every created value is in exactly '
+         'one place (C13_one_place) and after the cache is dropped every value ever created has gone exactly once (C13_exactly_once). Type erasure: a view '
+         'at type R of an entry stored at type S succeeds iff S = R (extracted facts: stored TypeId is that of the value, is::<T> compares it, both '
+         'reinterpreting casts are under `if self.is::<T>()`, exactly two such cast sites, write asserts equal types); skeleton of UntypedEntry::write '
+         '(swap inside the write-lock scope, old value dropped by the caller after the lock). The model ledger counts are compared with the real drop '
+         'ledger after every operation of every explored history.',
+ 'design_ref': 'DESIGN.md §D C13',
+ 'note': 'Partial: memory-level behaviour (use-after-free that does not crash, allocator, the lifetime-extending casts) is outside any model; races of '
+         'creators are single atomic steps in the model (lost insertion branch) and explored by the conc engine. Tie: regenerated cast-site facts and write '
+         'skeleton + own engine (model ledger = real ledger after every op, independent exactly-once oracle; sizes/alignments under reload; type matrix).',
+ 'technique': 'Lean 4 proof (ledger invariant by induction over loader programs and histories) + extracted cast-site facts + differential ledger correspondence'}
